@@ -118,6 +118,7 @@ type C17Scenario struct {
 	MaxComments int        `json:"max_comments"`
 	ShowDups    bool       `json:"show_dups"`
 	PerPage     int        `json:"per_page"` // page size of the platform's listings (GitLab paginates discussions)
+	MRs         int        `json:"mrs"`      // GitLab: open merge requests of the branch (each one is a destination)
 	Base        []c17File  `json:"base"`     // content of main
 	Rounds      []c17Round `json:"rounds"`
 }
@@ -144,6 +145,7 @@ func drawC17(rt *rapid.T) C17Scenario {
 	sc.MaxComments = []int{1, 2, 3, 5, 50}[rapid.IntRange(0, 4).Draw(rt, "max")]
 	sc.ShowDups = rapid.Bool().Draw(rt, "showdups")
 	sc.PerPage = []int{2, 3, 5, 100}[rapid.IntRange(0, 3).Draw(rt, "perpage")]
+	sc.MRs = []int{1, 1, 1, 2}[rapid.IntRange(0, 3).Draw(rt, "mrs")]
 	paths := []string{"rules/a.yml", "rules/b.yml", "rules/c.yml"}
 	nf := rapid.IntRange(1, 3).Draw(rt, "nfiles")
 	for i := 0; i < nf; i++ {
@@ -168,7 +170,7 @@ func drawC17(rt *rapid.T) C17Scenario {
 		if faulty && rapid.IntRange(0, 1).Draw(rt, "roundfault") == 0 {
 			nfault := rapid.IntRange(1, 2).Draw(rt, "nfaults")
 			for i := 0; i < nfault; i++ {
-				modes := []string{"500", "502", "stall", "refuse-after", "refuse-after", "lost-ack"}
+				modes := []string{"500", "502", "stall", "refuse-after", "refuse-after", "lost-ack", "garbage"}
 				if sc.Platform == "github" {
 					modes = append(modes, "403-rate")
 				} else {
@@ -368,6 +370,9 @@ func runC17(t *testing.T, sc C17Scenario, record bool) *detsim.Outcome {
 	if sc.PerPage > 0 {
 		forge.PerPage = sc.PerPage
 	}
+	if sc.Platform == "gitlab" && sc.MRs > 1 {
+		forge.MRs = sc.MRs
+	}
 	digest := fnv.New64a()
 	var simNs int64
 	var lastSummary Summary
@@ -502,115 +507,193 @@ func runC17(t *testing.T, sc C17Scenario, record bool) *detsim.Outcome {
 				}
 			}
 		}
-		// what changed in the store
-		beforeByID := map[int64]simforge.Comment{}
-		for _, c := range before {
-			beforeByID[c.ID] = c
-		}
-		afterByID := map[int64]simforge.Comment{}
-		var created, deleted []simforge.Comment
-		for _, c := range after {
-			afterByID[c.ID] = c
-			if _, ok := beforeByID[c.ID]; !ok && !c.General {
-				created = append(created, c)
+		// every destination (merge request) is judged on its own: the budget, coverage and clean-up are per destination
+		mrs := []int{0}
+		if sc.Platform == "gitlab" {
+			mrs = nil
+			for i := 1; i <= forge.MRs; i++ {
+				mrs = append(mrs, i)
 			}
 		}
-		for _, c := range before {
-			a, ok := afterByID[c.ID]
-			if (!ok || a.Author != c.Author) && !c.General {
-				deleted = append(deleted, c)
-			}
-		}
-		if record {
-			fmt.Printf("--- round %d err=%v created=%d deleted=%d\n", round, runErr, len(created), len(deleted))
-			for _, rep := range summary.Reports() {
-				fmt.Printf("   report %s:%d-%d %s | %s | dup=%v modlines=%v\n", rep.Path.Name, rep.Problem.Lines.First, rep.Problem.Lines.Last, rep.Problem.Reporter, rep.Problem.Summary, rep.IsDuplicate, rep.ModifiedLines)
+		totalCreated, totalDeleted := 0, 0
+		judgeMR := func(mr int) (int, int) {
+			var beforeM, afterM []simforge.Comment
+			for _, c := range before {
+				if c.MR == mr {
+					beforeM = append(beforeM, c)
+				}
 			}
 			for _, c := range after {
-				fmt.Printf("   stored #%d author=%d %s:%d/%d general=%v round=%d body=%q\n", c.ID, c.Author, c.Path, c.Line, c.OldLine, c.General, c.Round, clipBody(c.Body))
+				if c.MR == mr {
+					afterM = append(afterM, c)
+				}
 			}
-			for _, c := range calls {
-				fmt.Printf("   call %d %s %s -> %d applied=%v fault=%s\n", c.N, c.Method, c.Op, c.Status, c.Applied, c.Fault)
+			// what changed in the store
+			beforeByID := map[int64]simforge.Comment{}
+			for _, c := range beforeM {
+				beforeByID[c.ID] = c
 			}
-		}
-		who := fmt.Sprintf("round %d (%s, maxComments=%d, %d problems, %d faults fired, err=%v)", round, sc.Platform, sc.MaxComments, len(summary.Reports()), fired, runErr)
-		fmt.Fprintf(digest, "%d:%d:%d:%v;", round, len(created), len(deleted), runErr != nil)
+			afterByID := map[int64]simforge.Comment{}
+			var created, deleted []simforge.Comment
+			for _, c := range afterM {
+				afterByID[c.ID] = c
+				if _, ok := beforeByID[c.ID]; !ok && !c.General {
+					created = append(created, c)
+				}
+			}
+			for _, c := range beforeM {
+				a, ok := afterByID[c.ID]
+				if (!ok || a.Author != c.Author) && !c.General {
+					deleted = append(deleted, c)
+				}
+			}
+			if record {
+				fmt.Printf("--- round %d err=%v created=%d deleted=%d\n", round, runErr, len(created), len(deleted))
+				for _, rep := range summary.Reports() {
+					fmt.Printf("   report %s:%d-%d %s | %s | dup=%v modlines=%v\n", rep.Path.Name, rep.Problem.Lines.First, rep.Problem.Lines.Last, rep.Problem.Reporter, rep.Problem.Summary, rep.IsDuplicate, rep.ModifiedLines)
+				}
+				for _, c := range afterM {
+					fmt.Printf("   stored #%d author=%d %s:%d/%d general=%v round=%d body=%q\n", c.ID, c.Author, c.Path, c.Line, c.OldLine, c.General, c.Round, clipBody(c.Body))
+				}
+				for _, c := range calls {
+					fmt.Printf("   call %d %s %s -> %d applied=%v fault=%s\n", c.N, c.Method, c.Op, c.Status, c.Applied, c.Fault)
+				}
+			}
+			who := fmt.Sprintf("round %d (%s, merge request %d, maxComments=%d, %d problems, %d faults fired, err=%v)", round, sc.Platform, mr, sc.MaxComments, len(summary.Reports()), fired, runErr)
+			fmt.Fprintf(digest, "%d:%d:%d:%v;", round, len(created), len(deleted), runErr != nil)
 
-		// a comment that pint deletes and then posts again for the same head was deleted
-		// although its problem was still being reported
-		for _, c := range created {
-			for _, g := range deletions {
-				if g.head == head && g.c.Path == c.Path && g.c.Line == c.Line && g.c.OldLine == c.OldLine && trimBody(g.c.Body) == trimBody(c.Body) {
-					out.AddViolation("live-comment-deleted", fmt.Sprintf("%s: re-created at %s:%d the comment that round %d had deleted (#%d) while the same commit was under review: it was deleted although its problem was still reported", who, c.Path, c.Line, g.round, g.c.ID))
-				}
-			}
-		}
-		for _, d := range deleted {
-			if d.Author == simforge.PintUser {
-				deletions = append(deletions, gone{c: d, head: head, round: round})
-			}
-		}
-		// --- safety: holds after every run, completed or not ---
-		for i, c := range created {
-			if lostAck {
-				// a retried create after a lost acknowledgement may legitimately double a comment;
-				// explored and counted, not judged (DESIGN 2.4)
-				for _, o := range created[:i] {
-					if o.Path == c.Path && o.Line == c.Line && trimBody(o.Body) == trimBody(c.Body) {
-						out.Probes["observed_duplicate_after_lost_ack"]++
+			// a comment that pint deletes and then posts again for the same head was deleted
+			// although its problem was still being reported
+			for _, c := range created {
+				for _, g := range deletions {
+					if g.head == head && g.c.Path == c.Path && g.c.Line == c.Line && g.c.OldLine == c.OldLine && trimBody(g.c.Body) == trimBody(c.Body) {
+						out.AddViolation("live-comment-deleted", fmt.Sprintf("%s: re-created at %s:%d the comment that round %d had deleted (#%d) while the same commit was under review: it was deleted although its problem was still reported", who, c.Path, c.Line, g.round, g.c.ID))
 					}
 				}
-				continue
 			}
-			for _, b := range before {
-				if !b.General && b.Path == c.Path && b.Line == c.Line && b.OldLine == c.OldLine && trimBody(b.Body) == trimBody(c.Body) {
-					out.AddViolation("duplicate-comment-created", fmt.Sprintf("%s: created comment #%d at %s:%d although the equal comment #%d already existed", who, c.ID, c.Path, c.Line, b.ID))
+			for _, d := range deleted {
+				if d.Author == simforge.PintUser {
+					deletions = append(deletions, gone{c: d, head: head, round: round})
 				}
 			}
-			for _, o := range created[:i] {
-				if o.Path == c.Path && o.Line == c.Line && o.OldLine == c.OldLine && trimBody(o.Body) == trimBody(c.Body) {
-					out.AddViolation("duplicate-comment-created", fmt.Sprintf("%s: created the same comment twice (#%d and #%d) at %s:%d", who, o.ID, c.ID, c.Path, c.Line))
+			// --- safety: holds after every run, completed or not ---
+			for i, c := range created {
+				if lostAck {
+					// a retried create after a lost acknowledgement may legitimately double a comment;
+					// explored and counted, not judged (DESIGN 2.4)
+					for _, o := range created[:i] {
+						if o.Path == c.Path && o.Line == c.Line && trimBody(o.Body) == trimBody(c.Body) {
+							out.Probes["observed_duplicate_after_lost_ack"]++
+						}
+					}
+					continue
+				}
+				for _, b := range beforeM {
+					if !b.General && b.Path == c.Path && b.Line == c.Line && b.OldLine == c.OldLine && trimBody(b.Body) == trimBody(c.Body) {
+						out.AddViolation("duplicate-comment-created", fmt.Sprintf("%s: created comment #%d at %s:%d although the equal comment #%d already existed", who, c.ID, c.Path, c.Line, b.ID))
+					}
+				}
+				for _, o := range created[:i] {
+					if o.Path == c.Path && o.Line == c.Line && o.OldLine == c.OldLine && trimBody(o.Body) == trimBody(c.Body) {
+						out.AddViolation("duplicate-comment-created", fmt.Sprintf("%s: created the same comment twice (#%d and #%d) at %s:%d", who, o.ID, c.ID, c.Path, c.Line))
+					}
 				}
 			}
-		}
-		for _, d := range deleted {
-			if d.Author != simforge.PintUser {
-				out.AddViolation("foreign-comment-deleted", fmt.Sprintf("%s: deleted comment #%d at %s:%d written by user %d", who, d.ID, d.Path, d.Line, d.Author))
-				continue
+			for _, d := range deleted {
+				if d.Author != simforge.PintUser {
+					out.AddViolation("foreign-comment-deleted", fmt.Sprintf("%s: deleted comment #%d at %s:%d written by user %d", who, d.ID, d.Path, d.Line, d.Author))
+					continue
+				}
+				for _, rep := range summary.Reports() {
+					if rep.IsDuplicate && !sc.ShowDups {
+						continue
+					}
+					if matchesReport(d, rep, modified) && d.Commit == head {
+						out.AddViolation("live-comment-deleted", fmt.Sprintf("%s: deleted comment #%d at %s:%d although %s `%s` is still reported there", who, d.ID, d.Path, d.Line, rep.Problem.Reporter, rep.Problem.Summary))
+						break
+					}
+				}
+			}
+			if fired == 0 {
+				for _, c := range afterM {
+					if _, ok := beforeByID[c.ID]; ok || !c.General || c.Author != simforge.PintUser {
+						continue
+					}
+					for _, b := range beforeM {
+						if b.General && b.Author == simforge.PintUser && trimBody(b.Body) == trimBody(c.Body) {
+							out.AddViolation("duplicate-general-comment", fmt.Sprintf("%s: posted general comment #%d although the identical general comment #%d was already there: %q", who, c.ID, b.ID, clipBody(c.Body)))
+						}
+					}
+				}
+			}
+			if len(created) > sc.MaxComments {
+				out.AddViolation("budget-exceeded", fmt.Sprintf("%s: created %d comments", who, len(created)))
+			}
+			if len(created) > 0 {
+				out.Probes["run_created"]++
+			}
+			if len(deleted) > 0 {
+				out.Probes["run_deleted"]++
+			}
+			if len(created) == sc.MaxComments {
+				out.Probes["budget_exhausted"]++
+			}
+			if runErr != nil {
+				return len(created), len(deleted)
+			}
+
+			// --- after a completed run ---
+			deferred := len(created) == sc.MaxComments
+			uncovered := 0
+			inPR := map[string]bool{}
+			for _, f := range files {
+				inPR[f.Path] = true
 			}
 			for _, rep := range summary.Reports() {
-				if rep.IsDuplicate && !sc.ShowDups {
+				if (rep.IsDuplicate && !sc.ShowDups) || !inPR[rep.Path.SymlinkTarget] {
 					continue
 				}
-				if matchesReport(d, rep, modified) && d.Commit == head {
-					out.AddViolation("live-comment-deleted", fmt.Sprintf("%s: deleted comment #%d at %s:%d although %s `%s` is still reported there", who, d.ID, d.Path, d.Line, rep.Problem.Reporter, rep.Problem.Summary))
-					break
+				covered := false
+				for _, c := range afterM {
+					if c.Author == simforge.PintUser && matchesReport(c, rep, modified) {
+						covered = true
+						break
+					}
 				}
-			}
-		}
-		if fired == 0 {
-			for _, c := range after {
-				if _, ok := beforeByID[c.ID]; ok || !c.General || c.Author != simforge.PintUser {
-					continue
-				}
-				for _, b := range before {
-					if b.General && b.Author == simforge.PintUser && trimBody(b.Body) == trimBody(c.Body) {
-						out.AddViolation("duplicate-general-comment", fmt.Sprintf("%s: posted general comment #%d although the identical general comment #%d was already there: %q", who, c.ID, b.ID, clipBody(c.Body)))
+				if !covered {
+					uncovered++
+					if !deferred {
+						out.AddViolation("problem-not-covered", fmt.Sprintf("%s: %s `%s` at %s:%d-%d has no comment and the budget was not exhausted (%d created)", who, rep.Problem.Reporter, rep.Problem.Summary, rep.Path.Name, rep.Problem.Lines.First, rep.Problem.Lines.Last, len(created)))
 					}
 				}
 			}
+			if uncovered > 0 && deferred {
+				out.Probes["creation_deferred"]++
+				out.Nontrivial = true
+			}
+			if sc.Platform == "gitlab" && !deleteFaulted {
+				for _, c := range afterM {
+					if c.Author != simforge.PintUser || c.General {
+						continue
+					}
+					live := false
+					for _, rep := range summary.Reports() {
+						if matchesReport(c, rep, modified) {
+							live = true
+							break
+						}
+					}
+					if !live {
+						out.AddViolation("stale-comment-kept", fmt.Sprintf("%s: pint's comment #%d at %s:%d matches no current problem and was not removed", who, c.ID, c.Path, c.Line))
+					}
+				}
+			}
+			return len(created), len(deleted)
 		}
-		if len(created) > sc.MaxComments {
-			out.AddViolation("budget-exceeded", fmt.Sprintf("%s: created %d comments", who, len(created)))
-		}
-		if len(created) > 0 {
-			out.Probes["run_created"]++
-		}
-		if len(deleted) > 0 {
-			out.Probes["run_deleted"]++
-		}
-		if len(created) == sc.MaxComments {
-			out.Probes["budget_exhausted"]++
+		for _, mr := range mrs {
+			c, d := judgeMR(mr)
+			totalCreated += c
+			totalDeleted += d
 		}
 		if runErr != nil {
 			out.Probes["run_failed"]++
@@ -618,53 +701,7 @@ func runC17(t *testing.T, sc C17Scenario, record bool) *detsim.Outcome {
 			continue
 		}
 		out.Probes["run_completed"]++
-
-		// --- after a completed run ---
-		deferred := len(created) == sc.MaxComments
-		uncovered := 0
-		inPR := map[string]bool{}
-		for _, f := range files {
-			inPR[f.Path] = true
-		}
-		for _, rep := range summary.Reports() {
-			if (rep.IsDuplicate && !sc.ShowDups) || !inPR[rep.Path.SymlinkTarget] {
-				continue
-			}
-			covered := false
-			for _, c := range after {
-				if c.Author == simforge.PintUser && matchesReport(c, rep, modified) {
-					covered = true
-					break
-				}
-			}
-			if !covered {
-				uncovered++
-				if !deferred {
-					out.AddViolation("problem-not-covered", fmt.Sprintf("%s: %s `%s` at %s:%d-%d has no comment and the budget was not exhausted (%d created)", who, rep.Problem.Reporter, rep.Problem.Summary, rep.Path.Name, rep.Problem.Lines.First, rep.Problem.Lines.Last, len(created)))
-				}
-			}
-		}
-		if uncovered > 0 && deferred {
-			out.Probes["creation_deferred"]++
-			out.Nontrivial = true
-		}
-		if sc.Platform == "gitlab" && !deleteFaulted {
-			for _, c := range after {
-				if c.Author != simforge.PintUser || c.General {
-					continue
-				}
-				live := false
-				for _, rep := range summary.Reports() {
-					if matchesReport(c, rep, modified) {
-						live = true
-						break
-					}
-				}
-				if !live {
-					out.AddViolation("stale-comment-kept", fmt.Sprintf("%s: pint's comment #%d at %s:%d matches no current problem and was not removed", who, c.ID, c.Path, c.Line))
-				}
-			}
-		}
+		whoR := fmt.Sprintf("round %d (%s, %d destination(s), maxComments=%d, %d problems)", round, sc.Platform, len(mrs), sc.MaxComments, len(summary.Reports()))
 		// --- convergence and idempotence once faults and pushes stop ---
 		if settling {
 			if settleBudget < 0 {
@@ -676,7 +713,7 @@ func runC17(t *testing.T, sc C17Scenario, record bool) *detsim.Outcome {
 				}
 				settleBudget = (pending+sc.MaxComments-1)/sc.MaxComments + 1
 			}
-			if len(created) == 0 && len(deleted) == 0 {
+			if totalCreated == 0 && totalDeleted == 0 {
 				quiet++
 				if quiet == 2 {
 					out.Probes["converged"]++
@@ -684,13 +721,13 @@ func runC17(t *testing.T, sc C17Scenario, record bool) *detsim.Outcome {
 				}
 			} else {
 				if quiet > 0 {
-					out.AddViolation("not-idempotent", fmt.Sprintf("%s: a run after a run that changed nothing created %d and deleted %d comments with unchanged results", who, len(created), len(deleted)))
+					out.AddViolation("not-idempotent", fmt.Sprintf("%s: a run after a run that changed nothing created %d and deleted %d comments with unchanged results", whoR, totalCreated, totalDeleted))
 				}
 				quiet = 0
 			}
 			settleBudget--
 			if settleBudget < -2 && quiet == 0 {
-				out.AddViolation("no-convergence", fmt.Sprintf("%s: still creating/deleting comments (%d/%d) after more runs than ceil(pending/maxComments)+1 with unchanged results and no faults", who, len(created), len(deleted)))
+				out.AddViolation("no-convergence", fmt.Sprintf("%s: still creating/deleting comments (%d/%d) after more runs than ceil(pending/maxComments)+1 with unchanged results and no faults", whoR, totalCreated, totalDeleted))
 				break
 			}
 		}
